@@ -1706,7 +1706,8 @@ static void LPFwriteSVector(
    const NameSet*               p_cnames,                     ///< column names
    const SVectorBase<Rational>& p_svec,                       ///< vector to write
    SPxOut*                      spxout,                       ///< out stream
-   const bool                   writeZeroCoefficients = false ///< write zero objective coefficients
+   const bool                   writeZeroCoefficients = false, ///< write zero objective coefficients
+   const bool                   writeEmptyCols = false         ///< write a zero coefficient for columns without entries
 )
 {
 
@@ -1720,7 +1721,7 @@ static void LPFwriteSVector(
    {
       const Rational coeff = p_svec[j];
 
-      if(coeff == 0 && !writeZeroCoefficients)
+      if(coeff == 0 && !writeZeroCoefficients && !(writeEmptyCols && p_lp.colVector(j).size() == 0))
          continue;
 
       if(num_coeffs == 0)
@@ -1777,7 +1778,7 @@ static void LPFwriteObjective(
    DSVectorBase<Rational> svec(obj.dim());
    svec.operator = (obj);
    svec *= Rational(sense);
-   LPFwriteSVector(p_lp, p_output, p_cnames, svec, spxout, writeZeroObjective);
+   LPFwriteSVector(p_lp, p_output, p_cnames, svec, spxout, writeZeroObjective, true);
    p_output << "\n";
 }
 
@@ -2156,7 +2157,7 @@ void SPxLPBase<Rational>::writeMPS(
             MPSwriteRecord(p_output, nullptr, getColName(*this, i, p_cnames, name), spxout,
                            MPSgetRowName(*this, col.index(k), p_rnames, name1), col.value(k));
 
-         if(maxObj(i) != 0 || writeZeroObjective)
+         if(maxObj(i) != 0 || writeZeroObjective || col.size() == 0)
             MPSwriteRecord(p_output, nullptr, getColName(*this, i, p_cnames, name), spxout, "MINIMIZE",
                            -maxObj(i));
       }
